@@ -103,6 +103,7 @@ World::World(const Flags& f, Findings fnd, std::shared_ptr<impl::Lexicon> shared
    constants.push_back(Entity{Aux::Linkage, &L.cxx_linkage()});
    constants.push_back(Entity{Aux::Linkage, &L.c_linkage()});
    transfers.push_back(&impl::cxx_transfer());
+   transfer_spelled[&impl::cxx_transfer()] = std::string("C++") + "\x1f";
    constants.push_back(Entity{Aux::Transfer, &impl::cxx_transfer()});
    convs.push_back(&impl::cxx_transfer().convention());
    constants.push_back(Entity{Aux::Convention, &impl::cxx_transfer().convention()});
@@ -227,6 +228,7 @@ void World::add_type(const Type& t)
 {
    types.push_back(&t);
    if (t.category != Category_code::Qualified) plain_types.push_back(&t);
+   else qualified_types.push_back(&t);
    expr_index.emplace(static_cast<const Expr*>(&t), exprs.size());
    exprs.push_back(&t);
    typed_exprs.push_back(&t);
@@ -617,6 +619,7 @@ void op_TRANSFER(World& w, const Op& op)
       .exp("lang", Val::bytes(lang))
       .exp("cc", Val::bytes(cc));
    w.transfers.push_back(t);
+   w.transfer_spelled.emplace(t, lang + "\x1f" + cc);
    w.note("transfer " + printable(lang) + "/" + printable(cc));
 }
 
@@ -829,7 +832,11 @@ void op_QUALIFIED(World& w, const Op& op)
 {
    const unsigned bits = op.a % 8;
    const bool nest = w.counters["nest_qualified"] != 0 && (op.c % 4) == 0;
-   auto& t = nest ? *World::pick(w.types, op.b) : *World::pick(w.plain_types, op.b);
+   // nested qualification: half of the time the operand is certainly a qualified type (a recent one, so that a script of a
+   // few ops can say "qualify, then qualify the result"), otherwise any type
+   const bool certainly = nest && (op.c % 8) == 0 && !w.qualified_types.empty();
+   auto& t = certainly ? *w.qualified_types[w.qualified_types.size() - 1 - (op.b % std::min<std::size_t>(4, w.qualified_types.size()))]
+                       : (nest ? *World::pick(w.types, op.b) : *World::pick(w.plain_types, op.b));
    const Qualifiers q{bits};
    if (bits == 0) {
       // an empty qualifier set must be refused
@@ -873,7 +880,13 @@ void op_QUALIFIED(World& w, const Op& op)
       }
       if (!main_ok || it == w.first_by_key.end() || it->second.ptr != static_cast<const Node*>(&p)) {
          // keep the model consistent: only record results that are in normal form and agree with it
-         if (!main_ok) return;
+         if (!main_ok) {
+            // nothing is recorded for a result outside the documented normal form; say what the read-back shows
+            if (util::rep(p.qualifiers()) != all)
+               w.findings.fail("C02:field-mismatch:get_qualified.qualifiers", "qualifiers() is " + std::to_string(util::rep(p.qualifiers())) + ", the request over an already qualified operand amounts to " + std::to_string(all));
+            if (!physically_same(p.main_variant(), *inner)) w.findings.fail("C02:field-mismatch:get_qualified.main_variant", "main_variant() is not the innermost unqualified type");
+            return;
+         }
       }
       if (it != w.first_by_key.end() && it->second.ptr != static_cast<const Node*>(&p)) return;
    }
